@@ -558,3 +558,122 @@ def _edge_diff(e, r, section_end):
     spur = r - used
     # several expected 'anon' return edges may be satisfied by one proxy
     return miss, spur
+
+
+# ------------------------------------------------------------------ C04
+
+OFFSET_TABLES = ("comments", "padding", "symbolicExpressionSizes")
+
+
+def check_c04(mt, sess):
+    from .driver import expr_desc
+
+    world, model = mt.world, mt.model
+    m = world.module
+    byname = {}
+    for s in m.symbols:
+        byname.setdefault(s.name, []).append(s)
+    # --- symbolic expressions, by (unit, position)
+    for sname, u in model.units():
+        o = mt.unit_obs.get(u.id)
+        if o is None:
+            continue
+        pm = mt.posmap[u.id]
+        want = {}
+        for t, p in zip(u.toks, pm):
+            for rel, size, ed in t.sx:
+                want[p + rel] = (size, ed, t.id, "orig" if t.origin == "orig" else "patch")
+        real = {off: e for off, e in o.bi.symbolic_expressions.items()}
+        for off in sorted(set(want) | set(real)):
+            if off not in real:
+                size, ed, tid, org = want[off]
+                raise core.Violation("C04", "expr-lost", {"unit": u.id, "offset": off, "token": tid, "expr": list(map(str, ed))}, {"origin": org})
+            if off not in want:
+                raise core.Violation("C04", "expr-spurious", {"unit": u.id, "offset": off, "expr": list(map(str, expr_desc(real[off])))}, {"where": _where(u, pm, off)})
+            size, ed, tid, org = want[off]
+            rd = expr_desc(real[off])
+            if rd[:3] != tuple(ed)[:3]:
+                raise core.Violation("C04", "expr-moved", {"unit": u.id, "offset": off, "token": tid, "expected": list(map(str, ed)), "real": list(map(str, rd))}, {"origin": org})
+            if tuple(rd[3:]) != tuple(ed[3:]):
+                raise core.Violation("C04", "expr-attrs/addend", {"unit": u.id, "offset": off, "token": tid, "expected": list(map(str, ed)), "real": list(map(str, rd))}, {"origin": org})
+            e = real[off]
+            for sym in e.symbols:
+                cands = byname.get(sym.name, [])
+                if not any(c is sym for c in cands):
+                    raise core.Violation("C04", "expr-symbol-identity", {"unit": u.id, "offset": off, "symbol": sym.name, "what": "expression refers to a symbol object that is not in the module"}, {"origin": org})
+                if len(cands) > 1:
+                    raise core.Violation("C04", "duplicate-symbol", {"symbol": sym.name, "count": len(cands)}, {"origin": org})
+            if off + (size or 0) > o.size:
+                raise core.Violation("C04", "annot-out-of-range", {"unit": u.id, "offset": off, "table": "symbolic_expressions"}, {"table": "symexpr"})
+    # duplicate names created by patches
+    for name, lst in byname.items():
+        if len(lst) > 1:
+            raise core.Violation("C04", "duplicate-symbol", {"symbol": name, "count": len(lst)}, {"origin": "any"})
+    # --- offset-keyed aux data
+    iv_unit = {}
+    for sname, lst in mt.obs.sections.items():
+        for o in lst:
+            iv_unit[o.bi.uuid] = o
+    for table in OFFSET_TABLES:
+        ad = m.aux_data.get(table)
+        real = {}
+        if ad is not None:
+            for key, val in ad.data.items():
+                el = key.element_id
+                if isinstance(el, gtirb.ByteBlock):
+                    bi = el.byte_interval
+                    if bi is None or el.module is not m:
+                        raise core.Violation("C04", "annot-out-of-range", {"table": table, "what": "keyed by a block that left the module"}, {"table": table, "kind": "dead-block"})
+                    if not (0 <= key.displacement <= el.size):
+                        raise core.Violation("C04", "annot-out-of-range", {"table": table, "displacement": key.displacement, "block_size": el.size}, {"table": table, "kind": "range"})
+                    pos = el.offset + key.displacement
+                elif isinstance(el, gtirb.ByteInterval):
+                    bi = el
+                    if bi.module is not m:
+                        raise core.Violation("C04", "annot-out-of-range", {"table": table, "what": "keyed by an interval that left the module"}, {"table": table, "kind": "dead-interval"})
+                    if not (0 <= key.displacement <= bi.size):
+                        raise core.Violation("C04", "annot-out-of-range", {"table": table, "displacement": key.displacement, "interval_size": bi.size}, {"table": table, "kind": "range"})
+                    pos = key.displacement
+                else:
+                    raise core.Violation("C04", "annot-out-of-range", {"table": table, "what": f"keyed by {type(el).__name__}"}, {"table": table, "kind": "element"})
+                o = iv_unit.get(bi.uuid)
+                if o is None:
+                    raise core.Violation("C04", "annot-out-of-range", {"table": table, "what": "interval not in a section"}, {"table": table, "kind": "dead-interval"})
+                real.setdefault((o.unit, pos), []).append(val)
+        want = {}
+        for sname, u in model.units():
+            if u.id not in mt.posmap:
+                continue
+            pm = mt.posmap[u.id]
+            for t, p in zip(u.toks, pm):
+                for (tk, rel), val in t.ann.items():
+                    if tk.split("/")[0] == table:
+                        want.setdefault((u.id, p + rel), []).append(val)
+                if table == "symbolicExpressionSizes":
+                    for rel, size, ed in t.sx:
+                        if size is not None:
+                            want.setdefault((u.id, p + rel), []).append(size)
+        for k in sorted(set(want) | set(real), key=str):
+            w = sorted(map(str, want.get(k, [])))
+            r = sorted(map(str, real.get(k, [])))
+            if w != r:
+                cls = "annot-moved"
+                raise core.Violation(
+                    "C04", cls, {"table": table, "unit": k[0], "position": k[1], "expected": w, "real": r}, {"table": table, "kind": "lost" if w and not r else ("spurious" if r and not w else "value")}
+                )
+    # cfi directives: keys must be live and in range (their meaning is C08's)
+    ad = m.aux_data.get("cfiDirectives")
+    if ad is not None:
+        for key in ad.data:
+            el = key.element_id
+            if not isinstance(el, (gtirb.ByteBlock, gtirb.ByteInterval)) or el.module is not m:
+                raise core.Violation("C04", "annot-out-of-range", {"table": "cfiDirectives", "what": "keyed by an element outside the module"}, {"table": "cfiDirectives", "kind": "dead"})
+            if not (0 <= key.displacement <= el.size):
+                raise core.Violation("C04", "annot-out-of-range", {"table": "cfiDirectives", "displacement": key.displacement, "size": el.size}, {"table": "cfiDirectives", "kind": "range"})
+
+
+def _where(u, pm, off):
+    for t, p in zip(u.toks, pm):
+        if t.is_bytes() and p <= off < p + len(t.b):
+            return "orig" if t.origin == "orig" else ("pad" if t.origin == "pad" else "patch")
+    return "none"
